@@ -364,4 +364,11 @@ def _num_harness(typ, base, n, sign, lz):
 
 
 def extra_validation():
-    return [{"check": "c07.float_literal", "args": {"text": t}} for t in FLOATS]
+    ws = [{"check": "c07.float_literal", "args": {"text": t}} for t in FLOATS]
+    # the transpiler pastes number text into Python source: digit-shape classes a symbolic path's model need not pick
+    # (zeros at both ends, all zeros, sign, suffix case, hex with leading zeros), replayed under both runners (enumeration)
+    for t in ("0100", "-010", "010", "100", "00", "-0", "0010", "1000", "-0100", "0x010", "0x0A0", "-0x00F0", "000100200"):
+        ws.append({"check": "c07.number_literal", "args": {"text": t, "typ": "int"}})
+    for t in ("0120u", "00u", "010U", "100u", "0x010u", "0x00FFU", "0u", "001000u"):
+        ws.append({"check": "c07.number_literal", "args": {"text": t, "typ": "uint"}})
+    return ws
